@@ -11,6 +11,7 @@ from .heap import cls_of
 from .world import Unsupported
 from . import ops, contracts, repo
 from .engine import Outcome, ExcVal, Static, static, SpecCtx
+from . import trace
 
 OPTIONAL_FIELDS = set()      # field keys whose presence is tracked (hasattr); filled from the sidecar schema
 
@@ -56,8 +57,60 @@ def special_form(ex, name, e, st):
         return out
     if name == 'cast' and 'cast' not in st.locals:
         return ex.ev(e.args[1], st)
-    if name in ('map', 'filter'):
-        raise Unsupported('%s outside str.join' % name)
+    if name == 'emit':
+        out = []
+        for s, vals in ex.ev_many(e.args, st):
+            s2 = s.copy()
+            trace.emit(ex.W, s2.heap, vals[0], vals[1], vals[2] if len(vals) > 2 else 0, vals[3] if len(vals) > 3 else None)
+            out.append((s2, mk_none()))
+        return out
+    if name == 'retag_last':
+        out = []
+        for s, vals in ex.ev_many(e.args, st):
+            s2 = s.copy()
+            trace.retag_last(ex.W, s2.heap, vals[0], vals[1])
+            out.append((s2, mk_none()))
+        return out
+    if name in ('ui_event', 'ext_event'):
+        out = []
+        for s, vals in ex.ev_many(e.args, st):
+            s2 = s.copy()
+            if name == 'ui_event':
+                trace.append(ex.W, s2.heap, '$ui', vals[0])
+            else:
+                trace.append(ex.W, s2.heap, '$ext', vals[0])
+                trace.append(ex.W, s2.heap, '$ext_text', vals[1] if len(vals) > 1 else mk_str(''))
+            out.append((s2, mk_none()))
+        return out
+    if name == 'map' and 'map' not in st.locals:
+        # map(lambda m: E, xs) over a tuple of known length -> tuple of the results
+        lam = e.args[0]
+        if not isinstance(lam, ast.Lambda) or len(lam.args.args) != 1:
+            raise Unsupported('map with a non-lambda')
+        pname = lam.args.args[0].arg
+        out = []
+        for s, xs in ex.ev(e.args[1], st):
+            if not isinstance(xs.ty, TTuple):
+                raise Unsupported('map over %r' % (xs.ty,))
+            res = [(s, [])]
+            for item in tuple_items(xs):
+                nxt = []
+                for s2, acc in res:
+                    s3 = s2.copy()
+                    saved = s3.locals.get(pname)
+                    s3.locals[pname] = item
+                    for s4, v in ex.ev(lam.body, s3):
+                        s4 = s4.copy()
+                        if saved is None:
+                            s4.locals.pop(pname, None)
+                        else:
+                            s4.locals[pname] = saved
+                        nxt.append((s4, acc + [v]))
+                res = nxt
+            out += [(s2, mk_tuple(acc)) for s2, acc in res]
+        return out
+    if name == 'filter':
+        raise Unsupported('filter')
     return None
 
 
@@ -230,6 +283,8 @@ def call_method(ex, recv, name, args, kwargs, st):
             n = s2.heap.list_len(r)
             s2.heap.list_set(ty.elem, r, n, args[0])
             s2.heap.list_set_len(r, n + 1)
+            if trace.container_write_bumps(ty.elem):
+                trace.bump(s2)
             return [(s2, mk_none())]
         if name == 'remove':
             raise Unsupported('list.remove')
@@ -297,6 +352,11 @@ def construct_special(ex, cls, args, kwargs, st):
 def havoc_target(ex, m, cx, st, pre_heap):
     """m: 'x.f' | 'list(x)' | 'dict(x)' | 'set(x)' | 'global(name)' | 'field(pkg.Class.f)' | 'new'"""
     m = m.strip()
+    if m in trace.GROUPS:
+        trace.havoc_group(ex.W, st, m)
+        if m == 'trace':
+            trace.havoc_group(ex.W, st, 'shown')
+        return
     if m == 'new':
         # the callee may allocate: the allocation set grows (arbitrarily)
         k = st.heap.alloc_key()
